@@ -95,7 +95,7 @@ class H:
                  bounds='', stubs=(), assumptions=(), out_of_claim='', samples=(), native=True, sanitize=True,
                  object_bits=None, backends=('cadical',), native_srcs=None, native_extra=(), tiers=('quick', 'thorough'),
                  include_src=(), irc_extra_cc=(), no_checks=False, native_cflags=(), witness_unwind=None, tv=True,
-                 native_cc_defs=(), slice_formula=False, tracked=(), allow_undef=(), native_lib=()):
+                 native_cc_defs=(), slice_formula=False, tracked=(), allow_undef=(), native_lib=(), unwind_is_violation=False):
         self.name = name; self.engine = engine; self.harness = harness
         self.repo_srcs = list(repo_srcs); self.wrapper = wrapper; self.extra = list(extra); self.models = list(models)
         self.entry = entry
@@ -119,6 +119,7 @@ class H:
         self.native_cc_defs = list(native_cc_defs)
         self.slice_formula = slice_formula
         self.tracked = list(tracked); self.allow_undef = list(allow_undef)
+        self.unwind_is_violation = unwind_is_violation   # a loop running past the unwind bound is itself the defect (replayed under ASan)
         self.native_lib = list(native_lib)   # repo source dirs compiled once per run into a static archive for native builds
 
     def tier_val(self, v, tier):
@@ -598,9 +599,11 @@ def check_harness(prop, h, tier, scratch, log):
                           'verdict': 'reachable' if wfail else ('timeout' if rc is None else 'NOT-reachable')})
         if rc is None:
             R.status = 'inconclusive'; R.msg = 'witness twin timed out after %ds' % timeout; return R
-        if not wfail:
+        if not wfail and h.unwind_is_violation:
+            pass   # the end may be unreachable because a loop runs past the bound: the main query's unwinding assertion decides
+        elif not wfail:
             raise Fault('vacuity: witness twin of %s did not fail (end of harness unreachable)\n%s' % (h.name, out[-1500:]))
-        R.witness_ok = True
+        R.witness_ok = bool(wfail)
         # ---------------- main query (+ known-finding loop)
         excluded = {}
         known = load_known()
@@ -624,7 +627,7 @@ def check_harness(prop, h, tier, scratch, log):
                 raise Fault('cbmc produced no verdict on %s (rc=%s):\n%s' % (h.name, rc, out[-2500:]))
             fails = [p for p in pm['props'] if p[2] == 'FAILURE']
             uw = [p for p in fails if 'unwinding assertion' in p[1]]
-            if uw:
+            if uw and not h.unwind_is_violation:
                 q['verdict'] = 'unwind-too-small'
                 raise Fault('unwinding assertion failed in %s: bound too small: %s' % (h.name, uw[0][0]))
             if pm['verdict'] == 'SUCCESS':
